@@ -67,6 +67,15 @@ def setBoundaryConditions (cur bc : List (String × String)) : Res Unit × List 
 def setSamplingPolicy (p : String) : Res Unit := if pyPolicies.contains p then .ok () else .error .badValue
 def setInitStateProcessing (m : String) : Res Unit := if pyModes.contains m then .ok () else .error .badValue
 
+/-- `LibRDEngine.setup` → `engineexport_initialize_grid/_graph`: the engine option is looked up in the native
+`CompareStr` chain (exact comparison, `compareStrBody`); an option matching no entry makes the native call return
+the code that `setup` turns into an exception -/
+def engineSetupOption (graph : Bool) (option : String) : Res Unit :=
+  let known := (if graph then cppOptionsGraph else cppOptionsGrid).map (·.1)
+  if compareStrBody == "return(std::string(str1)==std::string(str2));" && known.contains option then .ok ()
+  else if known.any (fun k => k.isPrefixOf option) && compareStrBody != "return(std::string(str1)==std::string(str2));" then .ok ()
+  else .error .badValue
+
 /-! ### Grid construction, environment maps -/
 
 inductive CellEnvIn where
